@@ -7,6 +7,8 @@
 -/
 import BiomModel.Lemmas.C12
 
+deriving instance DecidableEq for Except
+
 namespace Biom.C12
 
 /-! ### the kernel, one vector -/
@@ -192,12 +194,21 @@ theorem model_holds_without (t : View) (lay : Lay) (n : Nat) (rng : Rng)
     Bool.and_true, Bool.and_eq_true, beq_iff_eq, decide_true, true_and]
   exact ⟨c1, c2, c3, c4, c5, c6⟩
 
-/-- with replacement, under the guard "every vector on the axis has a positive total" (see the witness) -/
-theorem model_holds_withRepl_partial (t : View) (lay : Lay) (n : Nat) (rng : Rng)
+/-- with replacement, on a table none of whose vectors on the axis is all-zero (what reaches the
+kernel): everything the two filters leave behind -/
+theorem withRepl_core (t : View) (lay : Lay) (n : Nat) (rng : Rng)
     (hwf : viewWF t = true) (hlay : layOK t lay = true) (hn : 1 ≤ n)
     (hrng : multisOK n (lay.map (·.2)) rng.multis = true)
     (hpos : ∀ l ∈ lay, 0 < l.2.sum) :
-    holds t n .withRepl (run t lay n .withRepl rng) = true := by
+    ∃ outs, kernelWith (lay.map (·.2)) rng.multis = .ok outs ∧
+      (finish t (denseAfter t.oids.length lay outs)).wfb = true ∧
+      (finish t (denseAfter t.oids.length lay outs)).oids.isSublist t.oids = true ∧
+      (colSums (finish t (denseAfter t.oids.length lay outs)).oids.length
+        (finish t (denseAfter t.oids.length lay outs)).vecs).all (fun s => decide (0 < s)) = true ∧
+      (finish t (denseAfter t.oids.length lay outs)).ids =
+        t.ids.filter (fun id => decide (0 < ((t.vec? id).getD []).sum)) ∧
+      (finish t (denseAfter t.oids.length lay outs)).vecs.all (fun v => v.sum == n) = true ∧
+      cellsRel (fun a b => a == 0 || decide (0 < b)) t (finish t (denseAfter t.oids.length lay outs)) = true := by
   obtain ⟨outs, hk, hol, hspec⟩ := kernelWith_spec n _ _ hrng
     (by intro v hv; obtain ⟨l, hl, rfl⟩ := List.mem_map.mp hv; exact hpos l hl)
   have hst := stage1_of t lay outs
@@ -221,11 +232,85 @@ theorem model_holds_withRepl_partial (t : View) (lay : Lay) (n : Nat) (rng : Rng
         · rw [w3 k hz]; rfl
         · have : decide (0 < l.2.getD k 0) = true := decide_eq_true (by omega)
           rw [this, Bool.or_true])
-  obtain ⟨c1, c2, c3, c4, c5, c6⟩ := finish_clauses t _ n (fun v => decide (0 < v.sum))
-    (fun a b => a == 0 || decide (0 < b)) hwf hst.1 hst.2
+  exact ⟨outs, hk, finish_clauses t _ n (fun v => decide (0 < v.sum))
+    (fun a b => a == 0 || decide (0 < b)) hwf hst.1 hst.2⟩
+
+/-! the filter that runs before the kernel when sampling with replacement -/
+
+theorem dropEmpty_wf (t : View) (hwf : viewWF t = true) : viewWF (dropEmpty t) = true := by
+  obtain ⟨⟨hvl, hvr⟩, hnid, hnoid⟩ := (viewWF_iff t).mp hwf
+  rw [viewWF_iff]
+  refine ⟨⟨filterMask_length_eq t.vecs t.ids _ hvl, fun v hv => hvr v (mem_of_mem_filterMask hv)⟩,
+    (filterMask_sublist _ _).nodup hnid, hnoid⟩
+
+theorem dropEmpty_pos (t : View) : ∀ v ∈ (dropEmpty t).vecs, 0 < v.sum := by
+  intro v hv
+  simp only [dropEmpty, filterMask_map_self, List.mem_filter, decide_eq_true_eq] at hv
+  exact hv.2
+
+theorem dropEmpty_ids (t : View) (hwf : viewWF t = true) :
+    (dropEmpty t).ids = t.ids.filter (fun id => decide (0 < t.total id)) := by
+  obtain ⟨⟨hvl, _⟩, hnid, _⟩ := (viewWF_iff t).mp hwf
+  exact filterMask_ids_by_value (fun v => decide (0 < v.sum)) t.ids t.vecs [] hnid hvl.symm
+
+theorem dropEmpty_vec? (t : View) (hwf : viewWF t = true) (id : Id) (h : id ∈ (dropEmpty t).ids) :
+    (dropEmpty t).vec? id = t.vec? id := by
+  obtain ⟨_, hnid, _⟩ := (viewWF_iff t).mp hwf
+  exact lookupBy_filterMask t.ids t.vecs _ id hnid h
+
+/-- every stored vector of a layout of the filtered table has a positive total -/
+theorem lay_pos_of_layOK (t : View) (lay : Lay) (hlay : layOK t lay = true) (hp : ∀ v ∈ t.vecs, 0 < v.sum) :
+    ∀ l ∈ lay, 0 < l.2.sum := by
+  intro l hl
+  simp only [layOK, Bool.and_eq_true, beq_iff_eq, List.all_eq_true] at hlay
+  obtain ⟨i, hi⟩ := List.mem_iff_getElem?.mp hl
+  have hil : i < lay.length := (List.getElem?_eq_some_iff.mp hi).1
+  have hv : t.vecs[i]? = some (t.vecs[i]'(by omega)) := List.getElem?_eq_getElem (by omega)
+  have hz : (t.vecs.zip lay)[i]? = some (t.vecs[i]'(by omega), l) := List.getElem?_zip_eq_some.mpr ⟨hv, hi⟩
+  have hok := hlay.2 _ (List.mem_of_getElem? hz)
+  obtain ⟨_, _, d3, _⟩ := dense_vec t.oids.length _ l l.2 hok rfl
+  have := hp _ (List.mem_of_getElem? hv)
+  rw [← d3]; exact this
+
+/-- **with replacement** (FULL at table level): vectors without any count are dropped before the
+kernel, every other vector sums to `n` and is non-zero only where the original was — for every table,
+every layout of the filtered table, `n ≥ 1`, every multinomial answer within numpy's contract -/
+theorem model_holds_withRepl (t : View) (lay : Lay) (n : Nat) (rng : Rng)
+    (hwf : viewWF t = true) (hlay : layOK (dropEmpty t) lay = true) (hn : 1 ≤ n)
+    (hrng : multisOK n (lay.map (·.2)) rng.multis = true) :
+    holds t n .withRepl (run t lay n .withRepl rng) = true := by
+  have hwf1 := dropEmpty_wf t hwf
+  obtain ⟨outs, hk, c1, c2, c3, c4, c5, c6⟩ := withRepl_core (dropEmpty t) lay n rng hwf1 hlay hn hrng
+    (lay_pos_of_layOK _ lay hlay (dropEmpty_pos t))
+  have hoids : (dropEmpty t).oids = t.oids := rfl
+  rw [hoids] at c1 c2 c3 c4 c5 c6
+  -- the retained IDs, in terms of the input table
+  have hids : (finish (dropEmpty t) (denseAfter t.oids.length lay outs)).ids =
+      t.ids.filter (fun id => decide (0 < t.total id)) := by
+    rw [c4]
+    have : (dropEmpty t).ids.filter (fun id => decide (0 < (((dropEmpty t).vec? id).getD []).sum)) =
+        (dropEmpty t).ids.filter (fun id => decide (0 < t.total id)) := by
+      apply List.filter_congr
+      intro id hid
+      rw [dropEmpty_vec? t hwf id hid]; rfl
+    rw [this, dropEmpty_ids t hwf, List.filter_filter]
+    apply List.filter_congr
+    intro id _
+    simp
+  have hcells : cellsRel (fun a b => a == 0 || decide (0 < b)) t
+      (finish (dropEmpty t) (denseAfter t.oids.length lay outs)) = true := by
+    simp only [cellsRel, List.all_eq_true] at c6 ⊢
+    intro id hid o ho
+    have hmem : id ∈ (dropEmpty t).ids := by
+      rw [c4] at hid; exact (List.mem_filter.mp hid).1
+    have hcell : (dropEmpty t).cell? id o = t.cell? id o := by
+      simp only [View.cell?, dropEmpty_vec? t hwf id hmem]; rfl
+    have := c6 id hid o ho
+    rw [hcell] at this
+    exact this
   simp only [holds, clauses, run, subsample, hk, List.all_cons, List.all_nil, List.cons_append, List.nil_append,
     Bool.and_true, Bool.and_eq_true, beq_iff_eq, decide_true, true_and]
-  exact ⟨c1, c2, c3, c4, c5, c6⟩
+  exact ⟨c1, c2, c3, hids, c5, hcells⟩
 
 /-- by ID: `min n N` IDs, in the original order, other-axis IDs exactly those still non-zero,
 values unchanged — for every shuffle the generator may return -/
@@ -264,31 +349,37 @@ theorem model_holds_byId (t : View) (lay : Lay) (n : Nat) (rng : Rng)
     cases hd
     simp
 
-/-- all modes at once; `pre` spells out every hypothesis, among them the guard for `withRepl` -/
-theorem model_holds_partial (t : View) (lay : Lay) (n : Nat) (mode : Mode) (rng : Rng)
+/-- **all modes at once**; `pre` spells out every hypothesis (shape and distinct IDs, `n ≥ 1`, the
+layout scipy hands to the kernel, numpy's contract for the generator's answers) -/
+theorem model_holds (t : View) (lay : Lay) (n : Nat) (mode : Mode) (rng : Rng)
     (h : pre t lay n mode rng = true) : holds t n mode (run t lay n mode rng) = true := by
   cases mode with
   | without =>
     simp only [pre, Bool.and_eq_true, decide_eq_true_eq] at h
     exact model_holds_without t lay n rng h.1.1 h.2.1 h.1.2 h.2.2
   | withRepl =>
-    simp only [pre, Bool.and_eq_true, decide_eq_true_eq, List.all_eq_true] at h
-    exact model_holds_withRepl_partial t lay n rng h.1.1 h.2.1.1 h.1.2 h.2.1.2 h.2.2
+    simp only [pre, Bool.and_eq_true, decide_eq_true_eq] at h
+    exact model_holds_withRepl t lay n rng h.1.1 h.2.1 h.1.2 h.2.2
   | byId =>
     simp only [pre, Bool.and_eq_true, decide_eq_true_eq] at h
     exact model_holds_byId t lay n rng h.1.1 h.2
 
-/-- the guard of `model_holds_withRepl_partial` is needed: with an all-zero vector on the axis the
-model (like the code: numpy's multinomial refuses an empty probability vector) raises, and the
-property's predicate is false.  `Table([[0,1],[0,2]]).subsample(2, with_replacement=True)`. -/
-theorem withRepl_empty_vector_witness :
+/-- the kernel itself still needs its guard (`kernelWith_spec`: every vector has a positive total):
+handed a vector without any stored entry, `biom.subsample(arr, n, True, rng)` raises, because numpy's
+multinomial refuses an empty probability vector — whatever the generator would have answered -/
+theorem kernelWith_empty_vector_witness (ms : List (List Nat)) :
+    kernelWith [[], [1, 2]] ms = .error .value := by
+  simp [kernelWith]
+
+/-- the input that used to raise (`Table([[0,1],[0,2]]).subsample(2, with_replacement=True)`, sample
+axis): the all-zero sample is dropped before the kernel, the other one is resampled -/
+theorem withRepl_empty_vector_repaired :
     let t : View := { ids := ["x", "y"], oids := ["a", "b"], vecs := [[0, 0], [1, 2]] }
-    let lay : Lay := [([], []), ([0, 1], [1, 2])]
-    viewWF t = true ∧ layOK t lay = true ∧
-      ∀ rng, holds t 2 .withRepl (run t lay 2 .withRepl rng) = false := by
-  refine ⟨by decide, by decide, ?_⟩
-  intro rng
-  simp [holds, clauses, run, subsample, kernelWith]
+    let lay : Lay := [([0, 1], [1, 2])]
+    let rng : Rng := { multis := [[1, 1]] }
+    pre t lay 2 .withRepl rng = true ∧
+      (run t lay 2 .withRepl rng).result = .ok { ids := ["y"], oids := ["a", "b"], vecs := [[1, 1]] } := by
+  decide
 
 /-! ### the property's sentences, one by one -/
 
@@ -388,8 +479,6 @@ theorem input_unchanged (t : View) (lay : Lay) (n : Nat) (mode : Mode) (rng : Rn
     (run t lay n mode rng).after = t := rfl
 
 /-! ### the hypotheses are met by concrete, non-trivial inputs -/
-
-deriving instance DecidableEq for Except
 
 /-- the 4x3 table of the repaired defect along observations, n = 3, the generator's answers of seed 1 -/
 def exT : View := { ids := ["a", "b", "c", "d"], oids := ["x", "y", "z"], vecs := [[1, 2, 0], [2, 1, 3], [3, 3, 4], [0, 2, 1]] }
